@@ -60,6 +60,39 @@ func corruptions(ev encVal, roles []codec.Role, other []byte, rng *rand.Rand, th
 			add("count", roles[p].Kind, nb, fmt.Sprintf("offset %d: %d -> %d", p, orig, v))
 		}
 	}
+	// compound: a message/union length that announces LESS than what follows (records are skipped
+	// by the announced length but sized by their content) together with a buffer that ends
+	// somewhere behind the prefix
+	for _, p := range pre {
+		if roles[p].Kind != "msg.len" && roles[p].Kind != "union.len" {
+			continue
+		}
+		orig := binary.LittleEndian.Uint32(b[p:])
+		seen := map[uint32]bool{orig: true}
+		for _, v := range []uint32{0, orig / 2, orig - 1} {
+			if seen[v] || orig == 0 {
+				continue
+			}
+			seen[v] = true
+			cuts := []int{}
+			for k := p + 4; k < len(b); k++ {
+				cuts = append(cuts, k)
+			}
+			max := 40
+			if thorough {
+				max = 400
+			}
+			if len(cuts) > max {
+				rng.Shuffle(len(cuts), func(i, j int) { cuts[i], cuts[j] = cuts[j], cuts[i] })
+				cuts = cuts[:max]
+			}
+			for _, k := range cuts {
+				nb := append([]byte{}, b[:k]...)
+				binary.LittleEndian.PutUint32(nb[p:], v)
+				add("under-announce+cut", roles[p].Kind, nb, fmt.Sprintf("offset %d: %d -> %d, cut at %d of %d", p, orig, v, k, len(b)))
+			}
+		}
+	}
 	for _, t := range tags {
 		vals := []byte{0, 1, 2, 3, 7, 127, 128, 200, 255}
 		if !thorough {
@@ -140,7 +173,7 @@ func unstructured(rng *rand.Rand, thorough bool) []corruption {
 func runC07(args []string) {
 	r := core.NewRun("C07", "exploration")
 	r.Rule = "codec corpus (systematic matrix + seeded random schemas); per record type valid encodings are corrupted structure-aware using the reference codec's per-byte role map: every length/count prefix " +
-		"set to {0, remaining+1, 2^16, 2^24, 2^31, 2^32-1, ...}, every message index / union discriminator / terminator byte set to other used and unused values, payload bytes flipped, tails of other values spliced in, random tails appended; " +
+		"set to {0, remaining+1, 2^16, 2^24, 2^31, 2^32-1, ...}, every message index / union discriminator / terminator byte set to other used and unused values, payload bytes flipped, tails of other values spliced in, random tails appended, message/union lengths under-announced (0, half, -1) combined with every (sampled beyond 40) cut point behind the prefix; " +
 		"plus all-0x00 / all-0xFF strings of every length <= 16 and seeded random strings of length <= 64. Each input goes to UnmarshalBebop (exact buffer) and DecodeBebop (metering reader) in driver children; " +
 		"oracle: returns nil or an error; no panic, process death, runaway, CPU > 2 s; exact allocation <= 64KiB + 1024*len(input). " +
 		"distinct_nontrivial = distinct (record type, decoder, corruption kind, wire role) tuples executed."
